@@ -4,6 +4,7 @@
 mod dbsim;
 mod gate;
 mod model;
+mod props_crash;
 mod props_seq;
 mod seglogsim;
 mod util;
@@ -57,6 +58,36 @@ impl Engine for StoreSim {
                 assumptions: DB_ASSUME,
             },
             PropertyInfo {
+                id: "C05",
+                level: "fault_enumeration",
+                rule: "seeded histories of 5-40 appends submitted without waiting for their acknowledgement under sync policies that leave an unsynced tail (timer-only, by bytes, by events, defaults); at 2-5 crash instants per history every power-loss cut k of the live segment's unsynced tail is built from the fsync ledger (image = bytes written up to k + durable bytes after k; every byte when the tail <= 4 KiB and below the cap, else record/field boundaries +-1 plus PRNG cuts) and reopened: open must succeed, the state must equal the model after a per-bucket prefix of the written transactions containing every acknowledged one, all read APIs must work, three further appends must continue the numbering, a second reopen must succeed. Non-trivial = cuts strictly inside a transaction or record; distinct by (history hash, model hash).",
+                quick_runs: 64,
+                thorough_runs: 1000,
+                real_components: DB_REAL,
+                stub_components: DB_STUB,
+                assumptions: DB_ASSUME,
+            },
+            PropertyInfo {
+                id: "C06",
+                level: "fault_enumeration",
+                rule: "seeded histories with 1-4 rollovers on minimum-size segments, background index flushes held at their hook; per sealed segment the three index files are put into states {empty, strict prefixes (every 64 bytes + header-field boundaries), complete} of the content the real flush job writes, one file swept through all its states while the other two take PRNG states, plus the all-empty (process crash before the flush ran) and all-complete corners; each image is reopened and checked like C05 (open succeeds, every acknowledged event found by id, stream scan and partition scan, numbering continues). Non-trivial = images where at least one index file is a strict non-empty prefix.",
+                quick_runs: 160,
+                thorough_runs: 1600,
+                real_components: DB_REAL,
+                stub_components: DB_STUB,
+                assumptions: DB_ASSUME,
+            },
+            PropertyInfo {
+                id: "C19",
+                level: "exploration",
+                rule: "per run a segment size, compression mode and a target transaction (1-3 events, zero/text/PRNG payloads from tiny to a third of a segment). A twin of the target is first stored in the empty segment (premise: it fits; stored size measured from the append hook), then filler appends steer the live segment's free space below / between / above (estimated size, stored size), then the target is appended with up to 5 identical attempts. Non-trivial = free space strictly between estimated and stored size at the first attempt; distinct by (estimated, stored, free, compression).",
+                quick_runs: 1200,
+                thorough_runs: 40000,
+                real_components: DB_REAL,
+                stub_components: DB_STUB,
+                assumptions: DB_ASSUME,
+            },
+            PropertyInfo {
                 id: "C17",
                 level: "fault_enumeration",
                 rule: "per sampled segment (H in {0,1,8,16}, compression off/on/toggled, boundary record sizes): every single-bit flip (all bits when the stored record <= bit cap), bursts of 2..32 bits over head+header and sampled data positions, every truncation length (short file and zero-filled), each checked through random read, sequential read, iteration, parse_record and (sampled) Writer::open. Non-trivial and distinct = distinct (H, fault kind, bit index, stored length, compressed?) of faults that hit the 4-byte length field or the compression flag.",
@@ -84,6 +115,9 @@ impl Engine for StoreSim {
             "C01" => props_seq::plan_c01(tier, run_seed),
             "C02" => props_seq::plan_c02(tier, run_seed),
             "C03" => props_seq::plan_c03(tier, run_seed),
+            "C19" => props_seq::plan_c19(tier, run_seed),
+            "C05" => props_crash::plan_c05(tier, run_seed),
+            "C06" => props_crash::plan_c06(tier, run_seed),
             "C17" => seglogsim::plan_c17(tier, run_seed),
             "C18" => seglogsim::plan_c18(tier, run_seed),
             _ => unreachable!(),
@@ -95,6 +129,9 @@ impl Engine for StoreSim {
             "C01" => props_seq::run_seq("C01", plan),
             "C02" => props_seq::run_seq("C02", plan),
             "C03" => props_seq::run_seq("C03", plan),
+            "C19" => props_seq::run_c19(plan),
+            "C05" => props_crash::run_c05(plan),
+            "C06" => props_crash::run_c06(plan),
             "C17" => seglogsim::exec_c17(plan),
             "C18" => seglogsim::exec_c18(plan),
             _ => unreachable!(),
